@@ -105,7 +105,6 @@ func VerifC01Pitch() {
 	if err != nil {
 		return
 	}
-	// the tonic offset may be read as raw pitch (Cb = -1) or pitch class (Cb = 11)
 	rootRaw := 60 + spec.RawPitch(letter, acc) + dsize
 	want := []int{rootRaw + bsize - 12}
 	for _, a := range attrs {
@@ -113,11 +112,9 @@ func VerifC01Pitch() {
 		vf.Assert("dictionary-attribute-is-an-interval", sok)
 		want = append(want, rootRaw+s)
 	}
+	// the tonic is the key note in the octave of middle C in scientific pitch notation
+	// (Cb4 = 59, B4 = 71): no octave slack
 	shift := 0
-	if spec.RawPitch(letter, acc) < 0 {
-		// Cb: either reading; decide by what the bass note shows
-		shift = vf.Ite(len(got) > 0 && int(got[0]) == rootRaw+bsize-12+12, 12, 0)
-	}
 	inRange := true
 	w8 := make([]uint8, len(want))
 	for i, x := range want {
